@@ -134,8 +134,11 @@ def judge_parse(obs, exp_nf):
     return ("wrong-result", "diff:" + path, {"path": d[0], "expected": short(d[1]), "observed": short(d[2])})
 
 
-def run_case(probe, res, toks, exp, atoms, bad_atoms, gen_name, rng, n_spell):
+def run_case(probe, res, toks, exp, atoms, bad_atoms, gen_name, rng, n_spell, starts=None):
     texts = [("canonical", spell.canonical(toks))]
+    if starts and rng.random() < 0.5:
+        # the same library the way an OSCAT export spells it (description blocks in front of declarations)
+        texts.append(("oscat-headers", spell.respell(spell.with_oscat(toks, starts, rng), rng, trivia=bool(n_spell))))
     for k in range(n_spell):
         texts.append(("layout%d" % k, spell.respell(toks, rng, trivia=True)))
     if any(k == "endif;" for _t, k, _x in toks):
@@ -192,7 +195,7 @@ def shard(shard_i, nshards, payload):
             g = gen.Gen(rng, avoid=bad if clean else (), depth=rng.randint(1, 4))
             toks, exp = g.library(rng.randint(1, 12) if i % 5 else 1)
             ok = run_case(probe, res, toks, exp, g.atoms, bad, "clean" if clean else "full", rng,
-                          payload["spellings"])
+                          payload["spellings"], g.decl_starts)
             if ok and i < 3 * nshards and i % nshards == shard_i and len(res.samples) < 3:
                 res.sample({"gen": "random", "atoms": len(g.atoms), "text": spell.canonical(toks)[:300]})
     finally:
